@@ -31,6 +31,15 @@ func genC07(t *rapid.T) c07Case {
 			c.Cfg.LongWindow = 1
 		}
 	}
+	if c.Cfg.Algo == "vegas" && rapid.IntRange(0, 2).Draw(t, "customPolicy") == 0 {
+		// caller-supplied policy functions (documented options). Growth at the baseline only needs a threshold >= 1
+		// (no queue counts as "no queuing") and a beta >= 1 (the aggressive step); alpha, increase and decrease are free.
+		c.Cfg.VThr = rapid.SampledFrom([]string{"k:1", "k:1", "k:2", "k:5", "log:1", "log:2"}).Draw(t, "vthr")
+		c.Cfg.VBeta = rapid.SampledFrom([]string{"k:1", "k:2", "k:6", "log:1", "log:6"}).Draw(t, "vbeta")
+		c.Cfg.VAlpha = rapid.SampledFrom([]string{"", "k:0", "k:1", "k:1", "k:3", "log:3"}).Draw(t, "valpha")
+		c.Cfg.VInc = rapid.SampledFrom([]string{"", "same", "add:1", "dbl"}).Draw(t, "vinc")
+		c.Cfg.VDec = rapid.SampledFrom([]string{"", "half", "sub:1", "sub:5"}).Draw(t, "vdec")
+	}
 	if rapid.IntRange(0, 3).Draw(t, "hasPrefix") > 0 {
 		c.Prefix = genSamples(t, c.Cfg, 150)
 	}
@@ -191,6 +200,9 @@ func runC07(_ *testing.T, c c07Case) kit.Outcome {
 	out.NonTrivial = sawDrop && sawZero && gap >= 3
 	if c.RunRTT == 0 {
 		out.Labels = append(out.Labels, "run-rtt0")
+	}
+	if c.Cfg.VThr != "" {
+		out.Labels = append(out.Labels, "vegas-custom-policy")
 	}
 	if gap >= 3 {
 		out.Labels = append(out.Labels, "run>=3-below-ceiling")
